@@ -1182,6 +1182,7 @@ package keyvalue
 //@                     err == nil && !kvHas(fs, oldname) && kvHas(fs, newname) && memSameExcept2(fs, oldname, newname) && isType(kvRec(fs, newname), mem.fileRecord) &&
 //@                     memRec(fs, newname).mode == old(memRec(fs, oldname).mode) && memRec(fs, newname).data == old(memRec(fs, oldname).data) && memRec(fs, newname).modTime == old(memRec(fs, oldname).modTime))
 //@   ensures "tree-file" [C03] implies(old(treeInv(fs)) && !old(rnSrcDir(fs, oldname)), treeInv(fs))
+//@   ensures "typed" [C05] implies(err != nil, isLinkError(err))
 //@   ensures "mem-world" world() == old(world())
 //@   ensures "inv" fsMem(fs)
 //@   nopanic
